@@ -197,17 +197,23 @@ CHECKS["C06"] = {
     "level": "model_checking",
     "technique": "exhaustive enumeration of all small CFGs x exact block relations over a 16-state concrete space on the real interleaved fixpoint iterator, compared block by block with a naive Kleene least fixpoint",
     "design_ref": "DESIGN.md §2 C06",
-    "jobs": [{"bin": "c06_fixpoint", "deadline": {"quick": 400, "thorough": 1200}}],
+    "jobs": [{"bin": "c06_fixpoint", "deadline": {"quick": 400, "thorough": 1200}},
+             {"bin": "e2_prog", "args": ["--family", "num"], "deadline": {"quick": 400, "thorough": 1200}}],
     "rule": ("value type = subsets of {0..3}^2 (widening = join, narrowing = meet). Every real crab CFG with n<=3 blocks (all 2^(n*n) edge "
              "sets: entry with predecessors / as loop head, self loops, unreachable blocks, irreducible shapes; n=4 in thorough with a 4-relation "
              "menu) x every assignment of exact block relations from {id, x+1 mod 4, x<=1, x>=2, havoc x, x:=0, swap} x 5 initial sets x every "
              "admissible start block (cfg entry, or a block outside every WTO component) x assumption maps (none / one block / two blocks, 3 sets) "
              "x widening_delay {0,1,3} x descending_iterations {0,1,2}; get_pre and get_post of EVERY block must equal the naive least solution "
              "of pre(b) = (init_b U posts of preds) & assumption_b, post = rel(pre). states = (run, block) pairs compared; "
-             "distinct_nontrivial = runs with a block whose least solution is neither empty nor full."),
+             "distinct_nontrivial = runs with a block whose least solution is neither empty nor full. "
+             "Job 2 (real domains): every loop-bearing program of the C01 space on intervals, sign x constant, interval-congruences, zones, "
+             "disjunctive intervals and constants: the reference is the same engine with an unreachable widening_delay (join only, no narrowing; "
+             "programs whose join-only iteration needs more than 60 cycle iterations are skipped); with T = cycle iterations the reference needed, "
+             "runs with widening_delay in {T, T+3} x thresholds {0,3} must give identical pre/post at every block, and for programs with exactly "
+             "one simple cycle also widening_delay = T-1, the exact boundary of 'iterated at most widening_delay times'."),
     "assumptions": ["the reference Kleene iteration is written independently in the harness"],
     "level_text": "Complete enumeration of the stated CFG/relation/parameter space on the real fixpoint iterator with an exact oracle.",
-    "level_note": "16-state concrete space and <=3 (4) blocks; the real-domain clause (no extrapolation within widening_delay) is checked by the C01 program engine.",
+    "level_note": "16-state concrete space and <=3 (4) blocks for the exact clause; the real-domain clause uses the engine itself without widening as reference.",
 }
 
 _E2_ASSUME = [
